@@ -1,9 +1,10 @@
 (* C17 — parsing and serialisation preserve the formula.
    Models: Model/Serialize.v (token / AST level; the third-party lexers dimacs, serde_sexpr,
    serde_json are modelled, not verified).  Proofs: Proofs/Serialize.v, Proofs/SerializeDD.v. *)
-From Coq Require Import Bool NArith ZArith List Arith Lia Sorted.
+From Coq Require Import Bool NArith ZArith List Arith Lia Sorted Ascii.
 Import ListNotations.
-From RsddV Require Import Base.Bdd Model.Compile Model.Serialize Proofs.Serialize Proofs.SerializeDD.
+From RsddV Require Import Base.Bdd Model.Compile Model.Serialize Model.SerializeText Proofs.Serialize Proofs.SerializeDD
+  Proofs.SerializeText.
 From RsddV Require Model.CnfUtil Proofs.CnfUtil Model.SddOps Model.VTree.
 
 (* ---------------------------------------------------------------------------------------- *)
@@ -30,6 +31,23 @@ Theorem C17_dimacs_roundtrip_raw : forall cs,
   parse_dimacs_tokens (concat (print_dimacs cs)) = POk (map (map z_of_lit) cs).
 Proof. exact dimacs_roundtrip_raw. Qed.
 Print Assumptions C17_dimacs_roundtrip_raw.
+
+(* character level: the text Cnf::to_dimacs writes (decimal digits without leading zero, "-",
+   one blank between literals, "\n" before and " 0" after each clause), read by the model of the
+   dimacs lexer (skip_whitespace, scan_nat, '0' => Zero, '-' => Minus), is exactly the token stream
+   of the token-level statements; hence the round trip holds from characters to Cnf *)
+Theorem C17_to_dimacs_text_lex : forall cs,
+  lex_chars (to_dimacs_text cs) None = Some (lex_ints (concat (print_dimacs cs))).
+Proof. exact to_dimacs_text_lex. Qed.
+Print Assumptions C17_to_dimacs_text_lex.
+
+Theorem C17_dimacs_roundtrip_chars : forall cs nv nc,
+  match lex_chars (to_dimacs_text (CnfUtil.clauses (CnfUtil.cnf_new cs))) None with
+  | Some body => cnf_from_dimacs (header nv nc ++ body) = POk (CnfUtil.cnf_new cs)
+  | None => False
+  end.
+Proof. exact dimacs_roundtrip_chars. Qed.
+Print Assumptions C17_dimacs_roundtrip_chars.
 
 (* the parser model is total: its fuel is never exhausted, on any token stream *)
 Theorem C17_parse_dimacs_total : forall ts, parse_dimacs ts <> PFuel.
@@ -196,6 +214,15 @@ Example C17_nonvacuous_dimacs :
   to_dimacs (CnfUtil.cnf_new cs) = [[-1; 3; 0]; [0]; [2; -2; 0]; [-100; 0]]%Z /\
   cnf_from_dimacs (header 100 4 ++ lex_ints (concat (to_dimacs (CnfUtil.cnf_new cs)))) = POk (CnfUtil.cnf_new cs) /\
   CnfUtil.clauses (CnfUtil.cnf_new cs) = [[(0, false); (2, true)]; []; [(1, true); (1, false)]; [(99, false)]]%N.
+Proof. vm_compute. repeat split. Qed.
+
+Example C17_nonvacuous_text :
+  let cs : list dclause := [[(0, false); (11, true)]; []; [(99, false)]]%N in
+  to_dimacs_text cs = ["010"; "-"; "1"; " "; "1"; "2"; " "; "0"; "010"; " "; "0"; "010"; "-"; "1"; "0"; "0"; " "; "0"]%char /\
+  lex_chars (to_dimacs_text cs) None = Some [TMinus; TNat 1; TNat 12; TZero; TZero; TMinus; TNat 100; TZero] /\
+  (* a leading zero is two tokens, as in the lexer: "05" = Zero, Nat 5; letters are outside the model *)
+  lex_chars ["0"; "5"]%char None = Some [TZero; TNat 5] /\
+  lex_chars ["c"]%char None = None.
 Proof. vm_compute. repeat split. Qed.
 
 (* LogicalExpr::from_dimacs keeps the 1-based numbers; an unterminated last clause is accepted;
